@@ -337,6 +337,8 @@ def _coq(policy, acts, o):
 
 
 def correspond(ctx, corr, model_ok):
+    from harness import battery
+    battery.run(corr, ['reconnect-setup', 'late-requests'])
     rng = ctx.rng
     items = []
     for i in range(ctx.scale(160, 3000)):
@@ -408,6 +410,10 @@ def search(ctx, budget_s):
 
 
 def replay(obj):
+    from harness import battery as _bat
+    _r = _bat.replay(obj.get('case') if isinstance(obj.get('case'), dict) else obj)
+    if _r is not None:
+        return _r
     case = obj['case']
     if case.get('scenario') == 'katimeout-reconnect':
         return bool(katimeout_oracle())
